@@ -354,14 +354,23 @@ package aml
 //@   trusted
 //@   modifies *, passes, passLog, passFailed, passAfterFail
 //@   ensures passDone(2, res != parseResultOk)
+// lastMerge / lastReloc: results of the latest merge and relocation pass; relocatedLastPass: the
+// value the latest relocation pass left in p.relocatedObjects. mergeScopeDirectives decides
+// between "fail" and "one more pass" for an unresolved Scope target by reading
+// p.relocatedObjects as the number of objects the previous relocation pass moved, so from the
+// second round on it must be called with that counter untouched.
+//@ ghost lastMerge parseResult
+//@ ghost lastReloc parseResult
+//@ ghost relocatedLastPass uint32
 //@ func (p *Parser) mergeScopeDirectives~callers(objIndex uint32) (res parseResult)
 //@   trusted
-//@   modifies *, passes, passLog, passFailed, passAfterFail
-//@   ensures passDone(3, res == parseResultFailed) && p.resolvePasses == old(p.resolvePasses)
+//@   requires progress: p.resolvePasses > 1 ==> p.relocatedObjects == relocatedLastPass
+//@   modifies *, passes, passLog, passFailed, passAfterFail, lastMerge
+//@   ensures passDone(3, res == parseResultFailed) && p.resolvePasses == old(p.resolvePasses) && lastMerge == res
 //@ func (p *Parser) relocateNamedObjects~callers(objIndex uint32) (res parseResult)
 //@   trusted
-//@   modifies *, passes, passLog, passFailed, passAfterFail
-//@   ensures passDone(4, res == parseResultFailed) && p.resolvePasses == old(p.resolvePasses)
+//@   modifies *, passes, passLog, passFailed, passAfterFail, lastReloc, relocatedLastPass
+//@   ensures passDone(4, res == parseResultFailed) && p.resolvePasses == old(p.resolvePasses) && lastReloc == res && relocatedLastPass == p.relocatedObjects
 //@ func (p *Parser) parseDeferredBlocks~callers(objIndex uint32) (res parseResult)
 //@   trusted
 //@   modifies *, passes, passLog, passFailed, passAfterFail
@@ -382,11 +391,13 @@ package aml
 //@ func (p *Parser) ParseAML(tableHandle uint8, tableName string, header *table.SDTHeader) (err *kernel.Error)
 //@   property C11
 //@   requires p != nil && !passFailed && passes < 0x1000000000000
-//@   modifies *, passes, passLog, passFailed, passAfterFail
+//@   modifies *, passes, passLog, passFailed, passAfterFail, lastMerge, lastReloc, relocatedLastPass
 //@   ensures stop: passAfterFail == old(passAfterFail)
+//@   ensures fixpoint: err == nil ==> lastMerge == parseResultOk && lastReloc == parseResultOk
 //@   ensures errs: err != nil ==> err == errParsingAML && passFailed
 //@   ensures clean: err == nil ==> !passFailed && p.resolvePasses >= 1
 //@   ensures order: err == nil ==> passes == old(passes) + 2 + 2*uintptr(p.resolvePasses) + 3 && passLog[old(passes)] == 1 && passLog[old(passes)+1] == 2 && forall(j, uintptr, j < uintptr(p.resolvePasses) ==> passLog[old(passes) + 2 + 2*j] == 3 && passLog[old(passes) + 3 + 2*j] == 4) && passLog[passes - 3] == 5 && passLog[passes - 2] == 6 && passLog[passes - 1] == 7
+//@   loop 1 invariant counter: p.resolvePasses > 1 ==> p.relocatedObjects == relocatedLastPass
 //@   loop 1 invariant p.resolvePasses >= 1 && p.resolvePasses < 0x7fffffff && !passFailed && passAfterFail == old(passAfterFail) && passes == old(passes) + 2 + 2*uintptr(p.resolvePasses - 1) && passLog[old(passes)] == 1 && passLog[old(passes)+1] == 2 && forall(j, uintptr, j < uintptr(p.resolvePasses - 1) ==> passLog[old(passes) + 2 + 2*j] == 3 && passLog[old(passes) + 3 + 2*j] == 4)
 
 // ---- child access (C13) -------------------------------------------------------------------------
